@@ -21,10 +21,16 @@ ids=sys.argv[1:] or sorted(os.listdir('/verif/seeded'))
 subprocess.run(f"git -C /repo worktree remove --force {WT}",shell=True,capture_output=True)
 rc,out=sh(f"git -C /repo worktree add --detach {WT} {PIN}")
 assert rc==0,out
+DEFAULT_PIN=PIN
 try:
     for sid in ids:
         d=f'/verif/seeded/{sid}'
         if not os.path.isfile(d+'/patch.diff'): continue
+        # a seed made against a later commit records it in <seed>/base
+        PIN=open(d+'/base').read().strip() if os.path.exists(d+'/base') else DEFAULT_PIN
+        sh("git checkout -q -- . && git clean -fdq",WT)
+        rc,out=sh(f"git checkout -q --detach {PIN}",WT)
+        assert rc==0,out
         demos=glob.glob(d+'/*_test.go')
         meta={"id":sid,"property":sid.split('-')[0],"pinned_commit":PIN}
         notes=open(d+'/notes.md').read() if os.path.exists(d+'/notes.md') else ''
